@@ -36,6 +36,11 @@ def run(ctx):
     hotspot_decision(ctx, f, cfg)
     schedule_store(ctx, f, cfg)
     pacing_arithmetic(ctx, f, cfg)
+    # the schedule in force is the one of the rule last loaded: rule equality (which decides whether a reload keeps the old checker) reads
+    # every parameter, in particular the interval a throttling rule paces by
+    from . import rules_C11
+    rules_C11.eq_coverage(ctx, f, "flow", "core::flow::rule::Rule", cfg, R="C07.rule-current/equality")
+    rules_C11.eq_coverage(ctx, f, "hotspot", "core::hotspot::rule::Rule", cfg, R="C07.rule-current/equality")
     g = LockGraph(f)
     g.build()
     bad = [(s, sorted({h["cls"] for h in s["held"]} - {"inst:EntryContext"})) for s in g.sleep_sites]
